@@ -761,7 +761,7 @@ const Property C08 = {
     "to twin worlds built from the same knobs: R one byte per call, S under a seeded schedule (single split point, uniform size 2..20, random multi-way, "
     "all at once; for 1 run in 16 every single split point of a stream <= 96 bytes is swept); buffer = longest pending run + 2 + slack. Compared: handler "
     "invocations with parameters and typed values, output bytes, flush count, error sequence, drained queue, remainder. A zero-length call is compared with "
-    "SCPI_Parse of the pending bytes in a third world. distinct_nontrivial = distinct hashes of (R trace, S traces).",
+    "SCPI_Parse of the pending bytes in a third world. Also: byte order marks, XON/XOFF, NUL and extra line-end bytes around messages, quotes inside parentheses, boundary numeric literals, bursts of 30..120 short lines in one call. distinct_nontrivial = distinct hashes of (R trace, S traces).",
 };
 const Property C09 = {
     "C09",
@@ -772,7 +772,7 @@ const Property C09 = {
     {"fault_idle_flush_with_pending", "fault_oversize_chunk", "fault_oversize_chunk_with_pending_bytes", "unit_pairs", "history_messages", "other_context_messages"},
     "world 1: fresh context, history A1..An (n=1..6) of well-formed, mutated and deliberately broken messages (half blocks, failing handlers, unread parameters, "
     "unterminated text + idle flush, oversize chunks, firmware errors; traffic on a second context in between), then B; world 2: B alone, run first. B's handler invocations, parameters, output bytes, flush count and "
-    "newly raised codes (-350 masked) must be equal. One run in five checks unit isolation: U1;U2 versus U2 alone. distinct_nontrivial = distinct hashes of both worlds' traces.",
+    "newly raised codes (-350 masked) must be equal. One run in five checks unit isolation: U1;U2 versus U2 alone. Also: the head (or all) of B in the same input call as the end of the history, B completed by the idle timer, overflowing literals followed by the extreme value of the same reader (errno), unit-table swaps, overlapping and long-prefix table entries; a B that reads status or the queue is exempt. distinct_nontrivial = distinct hashes of both worlds' traces.",
 };
 PropertyRegistrar r08(&C08), r09(&C09);
 
